@@ -200,10 +200,12 @@ example : (Space.tensor ⟨[3], .float64, .const .np (.fin 1) (.fin 2)⟩).conta
     = true := by decide
 
 /-- Conversely an input that is not in a tensor space is never returned as is: the result is
-an error or a NEW tensor whose dtype and shape are those of the space. -/
+an error, a NEW tensor whose dtype and shape are those of the space, or (values outside the
+exactly modelled range) no statement. -/
 theorem C20.element_new_in_space (T : DTables) (S : TSpace) (forced : Bool) (inp : Inp)
     (h : (Space.tensor S).contains inp.space? = false ∨ forced = true) :
     S.element T forced inp = .errValue ∨ S.element T forced inp = .errType ∨
+    S.element T forced inp = .outside ∨
     ∃ v sm, S.element T forced inp = .tensor S.dtype S.shape v sm := by
   unfold TSpace.element
   have hc : ((Space.tensor S).contains inp.space? && !forced) = false := by
@@ -215,28 +217,41 @@ theorem C20.element_new_in_space (T : DTables) (S : TSpace) (forced : Bool) (inp
   | some q =>
     obtain ⟨nd, sh, dt, v⟩ := q
     by_cases hs : padShape S.shape.length sh = S.shape
-    · simp [hs]
+    · simp only [hs, if_true]
+      cases v.mapM (castVal? T S.dtype) <;> simp
     · simp [hs]
 
 /-- `element_shape_error` and `element_values`: an array-like (or foreign element) with view
 `(shape, dtype, values)` offered to a tensor space it is not a member of raises `ValueError`
 iff its shape, left-padded with 1s to the rank of the space (`ndmin`), differs from the
-shape of the space; otherwise the new element holds exactly the input values converted to
-the dtype of the space, and shares memory only if the input is an ndarray of that dtype. -/
+shape of the space; otherwise — for values in the exactly modelled range (`castVal?`: dyadic,
+≤ 11 significant bits, magnitude < 128, non-negative for unsigned targets) — the new element
+holds exactly the input values converted to the dtype of the space (`castVal`: truncation for
+integer kinds, test against zero for bool, identity for float/complex kinds), and shares
+memory only if the input is an ndarray of that dtype.  Outside that range (wrap-around,
+rounding, overflow) there is no statement. -/
 theorem C20.element_values (T : DTables) (S : TSpace) (inp : Inp) (nd : Bool) (sh : List Nat)
     (dt : DType) (v : List Rat) (hm : (Space.tensor S).contains inp.space? = false)
     (hv : inp.view? = some (nd, sh, dt, v)) :
     (padShape S.shape.length sh ≠ S.shape → S.element T false inp = .errValue) ∧
-    (padShape S.shape.length sh = S.shape →
-      S.element T false inp =
-        .tensor S.dtype S.shape (v.map (castVal T S.dtype)) (nd && decide (dt = S.dtype))) := by
+    (padShape S.shape.length sh = S.shape → ∀ v', v.mapM (castVal? T S.dtype) = some v' →
+      v' = v.map (castVal T S.dtype) ∧
+      S.element T false inp = .tensor S.dtype S.shape v' (nd && decide (dt = S.dtype))) := by
   unfold TSpace.element
-  simp [hm, hv]
+  refine ⟨by intro h; simp [hm, hv, h], ?_⟩
+  intro h v' hv'
+  exact ⟨mapM_castVal?_eq T S.dtype v v' hv', by simp [hm, hv, h, hv']⟩
 
+/-- non-vacuity: a float32 ndarray of shape (3,) offered to `rn((1,3))`, and a list with
+fractional and negative entries offered to an int64 space (truncation toward zero) -/
 example : (⟨[1, 3], .float64, .const .np (.fin 1) (.fin 2)⟩ : TSpace).element
     OdlModel.Gen.DTypes.tables false (.arr true [3] .float32 [1, 2, 3]) =
-    .tensor .float64 [1, 3] [1, 2, 3] false := by
-  rfl
+    .tensor .float64 [1, 3] [1, 2, 3] false :=
+  ((C20.element_values OdlModel.Gen.DTypes.tables _ _ true [3] .float32 [1, 2, 3] (by decide)
+    rfl).2 (by decide) [1, 2, 3] (by decide)).2
+
+example : [(3/2 : Rat), -5/2, 3].mapM (castVal? OdlModel.Gen.DTypes.tables .int64) =
+    some [1, -2, 3] := by decide +kernel
 
 /-- Conversion to the dtype of the space is idempotent (converting twice changes nothing),
 so `element(element(x))`-style round trips are stable. -/
@@ -323,24 +338,126 @@ theorem C20.real_complex_float16_not_involutive :
       (·.realSpace OdlModel.Gen.DTypes.tables true) = some ⟨[3], .float32, defaultW .np⟩ := by
   decide
 
-/-- `byaxis_descr`: `space.byaxis[i]`, `[slice]`, `[list]` has exactly the selected shape
-entries, the same dtype and the same weighting object (non-array weightings). -/
-theorem C20.byaxis_descr (t r : TSpace) (idx : PIdx) (h : t.byaxis idx = some r) :
-    r.dtype = t.dtype ∧ r.w = t.w ∧
-    (match idx with
-     | .int i => t.shape[i]? = some (r.shape.headD 0) ∧ r.shape.length = 1
-     | .slice s => r.shape = selSlice t.shape s
-     | .list l => selList t.shape l = some r.shape) := by
-  cases idx with
-  | int i =>
-    simp only [TSpace.byaxis, Option.map_eq_some_iff] at h
-    obtain ⟨n, hn, rfl⟩ := h
-    simp [hn]
-  | slice s => simp only [TSpace.byaxis, Option.some.injEq] at h; subst h; simp
-  | list l =>
-    simp only [TSpace.byaxis, Option.map_eq_some_iff] at h
-    obtain ⟨sh, hs, rfl⟩ := h
-    simp [hs]
+/- FULL STATEMENT (false for the code as it exists): the same for array weightings, with the
+   weights restricted to the selection. -/
+/-- `byaxis_descr`: for spaces whose weighting is NOT an array weighting, `space.byaxis[i]`,
+`[slice]`, `[list]` has exactly the selected shape entries, the same dtype and the same
+weighting object.  Missing for the full statement: array weightings (finding C20-F7, see
+`C20.byaxis_array_weighting_fails`). -/
+theorem C20.byaxis_descr_partial (T : DTables) (t r : TSpace) (idx : PIdx) (fresh : Nat)
+    (hn : T.isNumeric t.dtype = true)
+    (hw : ∀ c i e, t.w ≠ .array c i e) (h : t.byaxis T idx fresh = some r) :
+    r.dtype = t.dtype ∧ r.w = t.w ∧ selShape t.shape idx = some r.shape := by
+  unfold TSpace.byaxis at h
+  cases hs : selShape t.shape idx with
+  | none => simp [hs] at h
+  | some sh =>
+    simp only [hs, hn, Bool.not_true, Bool.false_eq_true, if_false] at h
+    cases hww : t.w with
+    | array c i e => exact absurd hww (hw c i e)
+    | const c v e => simp [hww] at h; subst h; simp
+    | inner c f => simp [hww] at h; subst h; simp
+    | norm c f => simp [hww] at h; subst h; simp
+    | dist c f => simp [hww] at h; subst h; simp
+
+/-- for non-numeric dtypes (bool, strings; their only possible weighting is the constant 1.0)
+`byaxis` keeps shape selection, dtype and exponent -/
+theorem C20.byaxis_nonnumeric (T : DTables) (t r : TSpace) (idx : PIdx) (fresh : Nat)
+    (hn : T.isNumeric t.dtype = false) (h : t.byaxis T idx fresh = some r) :
+    r.dtype = t.dtype ∧ r.w = .const .np (.fin 1) t.w.exponent ∧
+    selShape t.shape idx = some r.shape := by
+  unfold TSpace.byaxis at h
+  cases hs : selShape t.shape idx with
+  | none => simp [hs] at h
+  | some sh => simp [hs, hn] at h; subst h; simp
+
+example : (⟨[2, 3, 4], .float32, .const .np (.fin 2) (.fin 1)⟩ : TSpace).byaxis
+    OdlModel.Gen.DTypes.tables (.list [2, 0]) 0 =
+    some ⟨[4, 2], .float32, .const .np (.fin 2) (.fin 1)⟩ := by decide
+
+/-- Counterexamples (finding C20-F7) on the model of the current code, which indexes the
+full-shape weight array along its FIRST axis with the AXIS index:
+`rn((2,3), weighting=W).byaxis[0]` raises; the identity selection `byaxis[:]` returns a space
+with a NEW weight array (token 0 ≠ 1), hence unequal to the original; and
+`rn((3,3), weighting=W).byaxis[1]` silently returns `rn(3)` weighted by ROW 1 of `W`. -/
+theorem C20.byaxis_array_weighting_fails :
+    let T := OdlModel.Gen.DTypes.tables
+    let s : TSpace := ⟨[2, 3], .float64, .array .np 1 (.fin 2)⟩
+    s.byaxis T (.int 0) 0 = none ∧
+    s.byaxis T (.slice ⟨0, 2, 1⟩) 0 2 = some ⟨[2, 3], .float64, .array .np 0 (.fin 2)⟩ ∧
+    (⟨[2, 3], .float64, .array .np 0 (.fin 2)⟩ : TSpace).eqI s = false ∧
+    (⟨[3, 3], .float64, .array .np 1 (.fin 2)⟩ : TSpace).byaxis T (.int 1) 0 =
+      some ⟨[3], .float64, .array .np 0 (.fin 2)⟩ := by
+  decide
+
+/-- `astype` round trip (generalises the real/complex involution): casting between two
+available floating-point dtypes and back returns the ORIGINAL descriptor (shape, dtype,
+weighting object, exponent) — for every shape and every weighting whose array can be cast. -/
+theorem C20.astype_round_trip (T : DTables) (t : TSpace) (d : DType)
+    (h1 : T.available d = true) (h2 : T.available t.dtype = true)
+    (h3 : T.isFloating d = true) (h4 : T.isFloating t.dtype = true) :
+    (t.astype T d true).bind (·.astype T t.dtype true) = some t := by
+  obtain ⟨sh, d0, w⟩ := t
+  by_cases hd : d = d0
+  · subst hd; simp [TSpace.astype]
+  · have hd' : ¬ d0 = d := fun h => hd h.symm
+    cases w <;> simp_all [TSpace.astype]
+
+/-- `astype` commutes with `byaxis` (no array weighting): selecting axes and then casting is
+the same as casting and then selecting axes, including the cases where either raises
+(numeric source and target dtypes). -/
+theorem C20.astype_byaxis_commute (T : DTables) (t : TSpace) (idx : PIdx) (dt : DType)
+    (ok : Bool) (fresh : Nat) (hn : T.isNumeric t.dtype = true) (hn' : T.isNumeric dt = true)
+    (hw : ∀ c i e, t.w ≠ .array c i e) :
+    (t.byaxis T idx fresh).bind (·.astype T dt ok) =
+      (t.astype T dt ok).bind (·.byaxis T idx fresh) := by
+  obtain ⟨sh, d0, w⟩ := t
+  cases w with
+  | array c i e => exact absurd rfl (hw c i e)
+  | const c v e =>
+    cases hs : selShape sh idx <;> by_cases h1 : dt = d0 <;> by_cases h2 : T.available dt = true <;>
+      by_cases h3 : T.isFloating dt = true <;>
+      simp_all [TSpace.byaxis, TSpace.astype, defaultW]
+  | inner c f =>
+    cases hs : selShape sh idx <;> by_cases h1 : dt = d0 <;> by_cases h2 : T.available dt = true <;>
+      by_cases h3 : T.isFloating dt = true <;>
+      simp_all [TSpace.byaxis, TSpace.astype, defaultW]
+  | norm c f =>
+    cases hs : selShape sh idx <;> by_cases h1 : dt = d0 <;> by_cases h2 : T.available dt = true <;>
+      by_cases h3 : T.isFloating dt = true <;>
+      simp_all [TSpace.byaxis, TSpace.astype, defaultW]
+  | dist c f =>
+    cases hs : selShape sh idx <;> by_cases h1 : dt = d0 <;> by_cases h2 : T.available dt = true <;>
+      by_cases h3 : T.isFloating dt = true <;>
+      simp_all [TSpace.byaxis, TSpace.astype, defaultW]
+
+/-- The dtype tables regenerated from the live `odl.util.utility` are coherent (checked over
+all dtypes of the model on every run): the classifiers partition as documented
+(`is_floating = real_floating or complex_floating`, `is_real = numeric and not complex`,
+integer dtypes are numeric and not floating, bool and string dtypes are not numeric);
+`TYPE_MAP_R2C` is defined exactly on the real floating dtypes and yields complex floating
+dtypes, `TYPE_MAP_C2R` exactly on the floating dtypes and yields real floating dtypes, is the
+identity on real floating dtypes, and `c2r (r2c d) = d` except for `float16` (→ `float32`). -/
+theorem C20.dtype_tables_coherent (d : DType) :
+    let T := OdlModel.Gen.DTypes.tables
+    (T.isFloating d = (T.isRealFloating d || T.isComplexFloating d)) ∧
+    (T.isReal d = (T.isNumeric d && !T.isComplexFloating d)) ∧
+    (T.isInt d = true → T.isNumeric d = true ∧ T.isFloating d = false) ∧
+    (T.isNumeric d = (T.isInt d || T.isFloating d)) ∧
+    (T.isInt d = d.isUnsigned || T.isInt d) ∧
+    (d.isUnsigned = true → T.isInt d = true) ∧
+    ((T.r2c d).isSome = T.isRealFloating d) ∧
+    ((T.c2r d).isSome = T.isFloating d) ∧
+    (∀ c, T.r2c d = some c → T.isComplexFloating c = true ∧
+      (T.c2r c = some d ∨ (d = .float16 ∧ T.c2r c = some .float32))) ∧
+    (∀ r, T.c2r d = some r → T.isRealFloating r = true ∧
+      (T.isRealFloating d = true → r = d)) ∧
+    (T.isNumeric d = true → T.available d = true) := by
+  cases d <;> simp [OdlModel.Gen.DTypes.tables, OdlModel.Gen.DTypes.isFloating,
+    OdlModel.Gen.DTypes.isRealFloating, OdlModel.Gen.DTypes.isComplexFloating,
+    OdlModel.Gen.DTypes.isReal, OdlModel.Gen.DTypes.isNumeric, OdlModel.Gen.DTypes.isInt,
+    OdlModel.Gen.DTypes.r2c, OdlModel.Gen.DTypes.c2r, OdlModel.Gen.DTypes.available,
+    DType.isUnsigned]
 
 /- FULL STATEMENT (false for the code as it exists): the weighting and exponent of `P[idx]`
    are those of `P` restricted to the selection, for every weighting kind. -/
@@ -357,6 +474,15 @@ theorem C20.pspace_index_descr_partial (l : List Space) (w : Weighting) (f : Fld
   refine ⟨fun _ => rfl, fun _ => rfl, ?_, ?_⟩
   · intro idx sel h; simp [Space.pindex, h]
   · intro c v e h; subst h; rfl
+
+/-- Indexing composes: `P[idx_list][j]` IS `P[idx_list[j]]` (the same component), for every
+product space, list of indices and `j`, including the out-of-range cases. -/
+theorem C20.pspace_index_list_int (l : List Space) (w : Weighting) (f : Fld) (idx : List Nat)
+    (P' : Space) (h : (Space.prod l w f).pindex (.list idx) = some P') (j : Nat) :
+    P'.pindex (.int j) = (idx[j]?).bind (fun (i : Nat) => (Space.prod l w f).pindex (.int i)) := by
+  simp only [Space.pindex, Option.map_eq_some_iff] at h
+  obtain ⟨sel, hs, rfl⟩ := h
+  simpa [Space.pindex] using selList_getElem? l idx sel hs j
 
 /-- a product space weighted by 2 with exponent 1 keeps both under slicing -/
 example :
@@ -504,10 +630,13 @@ example : finiteEq [.int 1, .int 2, .str "a"] [.str "a", .int 2, .int 1] = true 
 /-- Equal unions / intersections / Cartesian products have equal hashes
 (`hash((type, frozenset(self.sets)))`, resp. `hash((type, self.sets))`): for every number of
 members and every order, members being any non-composite sets other than `FiniteSet`s
-(fields, `Strings`, interval products, grids, spaces of any kind, …), with duplicate-free
-member tuples for unions and intersections (`unique` in the constructors). -/
+(`plainHash`: fields, `Strings`, interval products, grids, spaces of any kind, …), with
+duplicate-free member tuples for unions and intersections (`unique` in the constructors).
+Composites with `FiniteSet` members or nested composites are outside the model: their hashes
+are checked by the oracle on the real code only. -/
 theorem C20.composite_hash_respects_eq (heap : Nat → String) (a b : List Leaf)
-    (ha : ∀ x ∈ a, x.simple) (hb : ∀ x ∈ b, x.simple) :
+    (ha : ∀ x ∈ a, x.simple) (hb : ∀ x ∈ b, x.simple)
+    (_ha' : ∀ x ∈ a, x.plainHash) (_hb' : ∀ x ∈ b, x.plainHash) :
     ((a.map Leaf.key).Nodup → (b.map Leaf.key).Nodup →
       (Obj.union a).eqO (.union b) = some true →
       SHKey.eqv ((Obj.union a).hk heap) ((Obj.union b).hk heap) = true) ∧
